@@ -1,4 +1,5 @@
 import MoSql.Lemmas.InfixMain
+import MoSql.Lemmas.ExprSem
 import MoSql.Lemmas.LevelsOK
 import MoSql.Gen.Levels
 /-!
@@ -33,5 +34,13 @@ theorem evalE_precedence_tree (e : E)
       = ⟨some ((E.toW Gen.ctx e).val (OpJson.builders Gen.assocSet) Gen.levels), []⟩ :=
     makeTree_precedence_tree (E.toW Gen.ctx e) hwf hc
   simp [E.evalE, E.resultVal, h2]
+
+/-- **C01 (model level, every depth, every parenthesisation).**  For a written expression in
+which every parenthesis level is precedence-compatible under the *current* level table
+(`okTop`, a decidable check), the model of `parse` returns `sem e`: every operator applied to
+exactly its written operands in written order, parenthesised parts kept as groups, function
+arguments parsed the same way. -/
+theorem parse_eq_sem (e : E) (h : E.okTop Gen.ctx e = true) : E.evalE Gen.ctx e = E.sem Gen.ctx e :=
+  E.evalE_eq_sem Gen.ctx levels_ok e h
 
 end MoSql.Props.C01
